@@ -5,8 +5,8 @@
 set -u
 out=$1; shift
 mkdir -p "$out"
-wt=/tmp/mutsweep/repo; vf=/tmp/mutsweep/verif
-git -C /repo worktree remove --force $wt >/dev/null 2>&1; rm -rf /tmp/mutsweep; mkdir -p /tmp/mutsweep
+base=/tmp/mutsweep.$$; wt=$base/repo; vf=$base/verif
+git -C /repo worktree remove --force $wt >/dev/null 2>&1; rm -rf $base; mkdir -p $base
 git -C /repo worktree add --detach $wt HEAD >/dev/null 2>&1 || { echo "worktree failed"; exit 2; }
 rsync -a --exclude build --exclude replays --exclude .git /verif/ $vf/
 sed -i "s#=> /repo#=> $wt#" $vf/harness/go.mod
@@ -26,4 +26,4 @@ for id in $ids; do
   cat $out/$id.txt
 done
 git -C /repo worktree remove --force $wt >/dev/null 2>&1
-rm -rf /tmp/mutsweep
+rm -rf $base
